@@ -1,4 +1,5 @@
 use std::cell::Cell;
+use std::sync::atomic::{AtomicU64, Ordering};
 
 use rlib_rand::Rng;
 
@@ -11,10 +12,23 @@ pub trait TreapItemSized {
     fn size(&self) -> usize;
 }
 
+static THREADS_SEEN: AtomicU64 = AtomicU64::new(0);
+
+// The first thread that creates a node keeps the historical seed 42; every later thread gets a
+// well separated seed of its own (splitmix64 of its ordinal). With one seed for all threads,
+// pieces built on different threads had identical priority sequences and concatenating them
+// degenerated into a chain with one link per piece.
+fn thread_seed() -> u64 {
+    let mut z = THREADS_SEEN.fetch_add(1, Ordering::Relaxed).wrapping_mul(0x9E37_79B9_7F4A_7C15);
+    z = (z ^ (z >> 30)).wrapping_mul(0xBF58_476D_1CE4_E5B9);
+    z = (z ^ (z >> 27)).wrapping_mul(0x94D0_49BB_1331_11EB);
+    42 ^ z ^ (z >> 31)
+}
+
 thread_local! {
     // one generator per thread: `TreapNode::new` is a safe function and nodes are `Send`,
     // so a process-wide `static mut` was a data race as soon as two threads created nodes
-    static RNG: Cell<Rng> = Cell::new(Rng::from_seed(42));
+    static RNG: Cell<Rng> = Cell::new(Rng::from_seed(thread_seed()));
 }
 
 type Priority = u32;
